@@ -846,6 +846,12 @@ static void part2(const Args &a, Rng &rng)
 {
     const bool thorough = a.tier == "thorough";
     const int comps[] = { 1, 2, 256 };
+    // one candidate each, the second agent starts only after the first one's check has arrived (triggered-check path decides)
+    for (int roles = 0; roles < 2; roles++)
+        for (int bfirst = 0; bfirst < 2; bfirst++) {
+            PairCase pc; pc.ctlA = roles == 0; pc.ctlB = !pc.ctlA; pc.comp = comps[(roles + bfirst) % 3]; pc.bConnectsFirst = bfirst; pc.gap = true; pc.attack = bfirst;
+            runPair(pc, rng, 3000);
+        }
     // direct, lossless: all role assignments × candidate counts/orders × who starts × attack
     int n = 0;
     for (int roles = 0; roles < 4; roles++)
